@@ -100,6 +100,10 @@ func Derived(req wire.Msg, msize uint32) (uint8, []any) {
 		}
 		return wire.Rwalkgetattr, append(vals, qs)
 	case wire.Tgetattr:
+		if req.F[1].(uint64) == ErrMask {
+			// by convention: answer with an error that is a function of the fid
+			return wire.Rlerror, []any{ErrnoFor(req.F[0].(uint64))}
+		}
 		vals := g.Vals(wire.Rgetattr)
 		vals[0] = req.F[1].(uint64) & 0x3fff // valid = requested
 		return wire.Rgetattr, vals
@@ -117,6 +121,13 @@ func Derived(req wire.Msg, msize uint32) (uint8, []any) {
 	}
 	return req.Type + 1, g.Vals(req.Type + 1)
 }
+
+// ErrMask is the Tgetattr request mask (BTime|Gen) that Derived answers with
+// Rlerror(ErrnoFor(fid)) instead of attributes.
+const ErrMask = 0x1800
+
+// ErrnoFor is the errno Derived sends for a Tgetattr with ErrMask on fid.
+func ErrnoFor(fid uint64) uint64 { return 1 + fid%120 }
 
 // Auto answers every decodable request with Derived (Tversion conformingly).
 func Auto(capMsize, maxv uint32) func(s *Server, r *Req) {
